@@ -674,8 +674,8 @@ def run(tier: str, seed: int, replay=None) -> int:
         "order of resolve / Match._resolve / match_any / match_all is compared with the expected text)",
         "hand-written model Eql/Match.v of the conditions built from a pattern and of their evaluation (Attribute, Flatten, Comparator, "
         "HasType, Exists, AND, Entity), tied by differential execution through an(entity_matching(...)(...)).evaluate()",
-        "source pins pins/c11.json (41 methods the hand-written model mirrors and t_match.py does not regenerate: Match._update_fields / "
-        "expression / _update_selected_variables, AttributeAssignment.attr / assigned_variable / is_iterable_value, DomainMapping, Attribute, "
+        "source pins pins/c11.json (48 methods the hand-written model mirrors and t_match.py does not regenerate: Match._update_fields / "
+        "expression / _update_selected_variables, entity_selection / select / select_any / select_all / Select._resolve, ResultQuantifier._process_result_, AttributeAssignment.attr / assigned_variable / is_iterable_value, DomainMapping, Attribute, "
         "Flatten, Comparator, Exists, AND, QueryObjectDescriptor, Variable, Literal, entity.py constructors, HasType.__call__, is_iterable, "
         "make_set, HashedValue.__eq__): an edit of any of them reopens the correspondence obligation",
         "harness/c11.py: harness classes, world builder, equality classes computed with the objects' own ==, field table read from the "
@@ -686,7 +686,7 @@ def run(tier: str, seed: int, replay=None) -> int:
     rep.rule = ("3000 (quick) / 12000 (thorough) cases after the corpus: random worlds (2-3 knobs, 2-4 boxes, 2-5 units, 3-6 racks; value-equal twins of a box 30% / unit 40% / rack 50%), root type "
                 "Rack/WideRack/Unit, random patterns of depth <= 3 with 0-3 keywords per level in random order: scalar literal, object "
                 "literal, literal list, match_any/match_all over value lists, nested match/match_any with declared / narrower / wider / "
-                "missing / unrelated type; 35% of the patterns may also use empty value lists, in_ on scalars, match_all on scalars, empty nested matches; "
+                "missing / unrelated type; 35% of the patterns use select / select_any / select_all on nested and value keywords (20% / 12% of them) and 40% of those entity_selection for the root: their outcome is the set of ROWS of the selected expressions; 121 / 600 patterns give a let-variable over an explicit domain as a keyword value; 35% of the patterns may also use empty value lists, in_ on scalars, match_all on scalars, empty nested matches; "
                 "distinct = distinct (world, pattern, domain); non-trivial = the expected answer is neither empty nor the whole domain of T; plus 250 / 1500 directed cases (nested match on a collection: a match_any several members witness followed or preceded by a keyword only a later member satisfies, root keyword before / after / absent; Unit.__eq__ ignores `parts` and Part.tag is not compared, so == twins differ)")
     ok_spec, log = core.coq_make(["Base/Sx.vo", "Eql/MatchSpecShow.vo"])
     rep.oblige("build:spec", ok_spec, "" if ok_spec else core.first_error(log))
